@@ -208,6 +208,7 @@ class Engine:
             stop["time"] = T.choice([0.0, 0.01, 0.2, 0.5, 3.0])
         sc["stop"] = stop
         sc["logger"] = T.draw(4) == 0
+        sc["slow_disk"] = T.draw(3) == 0
         sc["sched"] = gen_sched(T, tier, n)
         if n > 120:
             sc["sched"]["p_preempt"] = [0, 1]
@@ -261,6 +262,7 @@ class Engine:
         seams.reset_captures(tmp)
         res = {}
         stall = sources.StallPlan(tuple(scfg["stall"]), scfg["stall_durs"])
+        seams.FILE_STALL["plan"] = stall if sc.get("slow_disk") else None
 
         class RecObs(W.Worker):
             def __init__(self, timeout):
